@@ -149,7 +149,7 @@ pub open spec fn by_formatter<T, U: Fn(&Context, &T, TableType, Shape) -> (T, Ve
             pk_rest(&current_fields).len() == ppairs(fields0).len() - k,
             forall|j: int| 0 <= j < pk_rest(&current_fields).len() ==> *(#[trigger] pk_rest(&current_fields)[j]) == ppairs(fields0)[k + j],
             forall|i: int, s: Shape| 0 <= i < ppairs(fields0).len() ==> #[trigger] formatter.requires((&field_ctx(ctx0, ppairs(fields0), (i + 1) as nat), &pair_value(ppairs(fields0)[i]), TableType::MultiLine, s)),
-            ppairs(fields).len() == k,
+            ppairs(fields).len() == k, //# C08.table_loop
             ctx == field_ctx(ctx0, ppairs(fields0), k as nat), table_type is MultiLine,
             forall|i: int| 0 <= i < k ==> by_formatter(formatter, field_ctx(ctx0, ppairs(fields0), (i + 1) as nat), pair_value(#[trigger] ppairs(fields0)[i]), TableType::MultiLine, pair_value(ppairs(fields)[i])), //# C08.table_loop
         ensures k == ppairs(fields0).len(),
@@ -174,7 +174,8 @@ pub open spec fn by_formatter<T, U: Fn(&Context, &T, TableType, Shape) -> (T, Ve
             pk_rest(&current_fields).len() == ppairs(fields0).len() - k,
             forall|j: int| 0 <= j < pk_rest(&current_fields).len() ==> *(#[trigger] pk_rest(&current_fields)[j]) == ppairs(fields0)[k + j],
             forall|i: int, s: Shape| 0 <= i < ppairs(fields0).len() ==> #[trigger] formatter.requires((ctx, &pair_value(ppairs(fields0)[i]), TableType::SingleLine, s)),
-            ppairs(fields).len() == k, table_type is SingleLine,
+            table_type is SingleLine,
+            ppairs(fields).len() == k, //# C08.table_loop
             forall|i: int| 0 <= i < k ==> by_formatter(formatter, *ctx, pair_value(#[trigger] ppairs(fields0)[i]), TableType::SingleLine, pair_value(ppairs(fields)[i])), //# C08.table_loop
         ensures k == ppairs(fields0).len(),
         decreases pk_rest(&current_fields).len(),
